@@ -145,6 +145,16 @@ def run(ctx):
                     ed = base[:last + 1] + [{"id": "SEND", "data": [], "isn": False, "nested": []}] * extra + base[last + 1:]
                     traces.append({"id": "%s.trailing-empty+%d" % (name, extra), "events": [fmt.load_event(tlv.from_json_nested(ed), spec)]})
                     ctx.count_case((name, "trailing-empty", extra))
+        # (ii-i) the two version chunks: BVER in front of VERS, BVER alone dropped, both dropped
+        iv_ = [j for j, c in enumerate(base) if c["id"] == "VERS"][:1]
+        ib_ = [j for j, c in enumerate(base) if c["id"] == "BVER"][:1]
+        if iv_ and ib_ and base[0]["id"] == "SVOX":
+            ed = copy.deepcopy(base)
+            ed[iv_[0]], ed[ib_[0]] = base[ib_[0]], base[iv_[0]]
+            traces.append({"id": name + ".bver-before-vers", "events": [fmt.load_event(tlv.from_json_nested(ed), spec)]})
+            ed = [c for j, c in enumerate(base) if j not in (iv_[0], ib_[0])]
+            traces.append({"id": name + ".no-version-chunks", "events": [fmt.load_event(tlv.from_json_nested(ed), spec)]})
+            ctx.count_case((name, "version-chunks"))
     # (ii-f) files without any slot chunk (as older SunVox versions wrote them): link-rich projects, every SLnK removed
     from .. import links
     for i in range(25 if q else 400):
@@ -160,10 +170,17 @@ def run(ctx):
         raise MachineryError("only %d fixtures found" % nfix)
     # (iii) reference-encoded files: the spec is the encoder
     enc = []
-    for i in range(12 if q else 300):
+    VERS = [[1, 7, 0, 0], [1, 9, 4, 0], [1, 9, 5, 0], [2, 0, 0, 0], [2, 1, 2, 1], [1, 9, 4, 255], [1, 9, 5, 1]]
+    for i in range(14 if q else 300):
         p = gen.rand_project(rnd, spec, depth=rnd.choice([0, 1]), small=True)
+        if i < len(VERS):       # every version stamp once with a pattern whose notes name module numbers above 255
+            bp = api.Pattern(tracks=2, lines=4)
+            for j, mnum in enumerate([300, 256, 255, 7, 65535, 257, 1, 0]):
+                n_ = bp.data[j // 2][j % 2]
+                n_.note, n_.module = api.NOTECMD.C4, mnum
+            p.attach_pattern(bp)
         o = fmt.projection.project_any(p, spec)
-        o["proj"]["vers"] = rnd.choice([[1, 7, 0, 0], [1, 9, 4, 0], [1, 9, 5, 0], [2, 0, 0, 0], [2, 1, 2, 1], [1, 9, 4, 255]])
+        o["proj"]["vers"] = VERS[i] if i < len(VERS) else rnd.choice(VERS)
         o["proj"]["bver"] = rnd.choice([[1, 9, 0, 0], [2, 1, 2, 1]])
         o["proj"]["time"] = rnd.choice([0, 5, -7])
         enc.append({"id": "ref%d" % i, "events": [{"op": "encode", "obj": o}]})
